@@ -14,7 +14,7 @@ import random as _random
 import sys
 
 from . import progs
-from .core import OPTION_NAMES, OPTION_SPACE, cjson, derive_seed, digest, normalise, sha_text
+from .core import OPTION_NAMES, OPTION_SPACE, as_value, cjson, derive_seed, digest, normalise, sha_text
 from .worker import ChildFailure, fork_run
 
 POOL = progs.load_pool()
@@ -235,7 +235,7 @@ def _outcome_of_call(fn) -> dict:
 def _apply_model(obj, model: dict):
     for n in OPTION_NAMES:
         if n in model:
-            setattr(obj, n, model[n])
+            setattr(obj, n, as_value(model[n]))
 
 
 def child_ref(arg) -> dict:
@@ -294,7 +294,7 @@ def child_count_set(arg) -> dict:
     inj = Injector(_pkgdir(), "count")
     sys.settrace(inj.trace)
     try:
-        setattr(o, arg["name"], arg["value"])
+        setattr(o, arg["name"], as_value(arg["value"]))
     except BaseException:  # noqa: BLE001
         pass
     finally:
@@ -510,7 +510,7 @@ def child_history(desc: dict) -> dict:
             try:
                 for i in range(op["n"]):
                     t = Configs()
-                    setattr(t, op["name"], op["value"])
+                    setattr(t, op["name"], as_value(op["value"]))
                     tmp.append(t)
                 ev["out"] = "ok"
             except BaseException as e:  # noqa: BLE001
@@ -571,7 +571,7 @@ def child_history(desc: dict) -> dict:
                 ev["skip"] = True
                 return ev
             o = objs[oid]
-            name, value = op["name"], op["value"]
+            name, value = op["name"], as_value(op["value"], bool(op.get("fresh")))
             if kind == "set":
                 try:
                     setattr(o, name, value)
@@ -955,7 +955,10 @@ def gen_history(seed: int, ctx: C10Ctx, knobs: dict | None = None) -> dict:
             else:
                 value = rng.choice(OPTION_SPACE[name])
                 models[oid][name] = value
-                ops.append({"op": "set", "obj": oid, "name": name, "value": value})
+                sop = {"op": "set", "obj": oid, "name": name, "value": value}
+                if rng.random() < 0.3:
+                    sop["fresh"] = True   # an equal string that is another object than any literal (run-time built)
+                ops.append(sop)
             continue
         c2 = rng.random()
         if c2 < prng_rate:
